@@ -53,10 +53,14 @@ pub type Entries = Vec<(String, Item)>;
 
 pub fn build_jar(entries: &Entries) -> Result<Vec<u8>, String> {
 	let mut w = zip::ZipWriter::new(Cursor::new(Vec::new()));
-	let opts = zip::write::SimpleFileOptions::default().compression_method(zip::CompressionMethod::Stored).last_modified_time(zip::DateTime::default());
-	for (name, item) in entries {
+	let stored = zip::write::SimpleFileOptions::default().compression_method(zip::CompressionMethod::Stored).last_modified_time(zip::DateTime::default());
+	let deflated = stored.compression_method(zip::CompressionMethod::Deflated);
+	for (i, (name, item)) in entries.iter().enumerate() {
+		// entries at odd positions are deflated, at even positions stored: as subsets shift the positions, every menu
+		// item is read back through both decompression paths of the jar reader
+		let opts = if i % 2 == 1 { deflated } else { stored };
 		match item {
-			Item::Dir => w.add_directory(name.as_str(), opts).map_err(|e| format!("{name}: {e}"))?,
+			Item::Dir => w.add_directory(name.as_str(), stored).map_err(|e| format!("{name}: {e}"))?,
 			Item::File(data) => {
 				w.start_file(name.as_str(), opts).map_err(|e| format!("{name}: {e}"))?;
 				w.write_all(data).map_err(|e| format!("{name}: {e}"))?;
